@@ -618,6 +618,48 @@ fn check_subset_generated(c: &(GenFont, SubsetCase), rec: &mut Rec) -> CaseResul
     check_subset_on("generated", &bytes, f.num_glyphs(), Outline::Glyf, sc, rec)
 }
 
+// ------------------------------------------------------------------------------ subsets of generated CFF / CFF2 fonts
+
+/// C18-generated name-keyed / CID-keyed CFF fonts (the generator C07 subsets, here biased to more
+/// than 255 glyphs so that the Type 1 -> CID conversion runs; with and without local / global subroutines).
+fn gen_cff_strategy() -> impl Strategy<Value = crate::props::c18::Case> {
+    (crate::props::c07::c18_case_strategy(), prop_oneof![1 => Just(0usize), 1 => 257usize..=330]).prop_map(|(mut c, big)| {
+        if big > 0 {
+            c.nglyphs = big;
+            c.cuts = c.cuts.min(1);
+            c.deep = false;
+            c.max_segs = c.max_segs.min(5);
+        }
+        c.variable = false;
+        // CFF2 sources are left to C07: the CFF2 -> CFF conversion copies operand lists longer than the 48 a CFF
+        // charstring may hold (known finding C07:cff2-operand-list-over-48-not-split, attributed there by a
+        // defect model); here every such subset would only fail to self-load
+        if c.kind == crate::props::c18::Kind::Cff2 {
+            c.kind = crate::props::c18::Kind::NameKeyed;
+            c.nfd = 1;
+        }
+        c
+    })
+}
+
+fn check_subset_generated_cff(c: &(crate::props::c18::Case, SubsetCase), rec: &mut Rec) -> CaseResult {
+    use crate::props::c18;
+    let (cc, sc) = c;
+    let b = c18::build(cc);
+    let n = b.glyphs.len() as u16;
+    let cff2 = cc.kind == c18::Kind::Cff2;
+    let otf = crate::fontgen::cff::build_otf(b.table.clone(), cff2, n, &[]);
+    rec.artefact("source", &otf);
+    rec.class(match cc.kind {
+        c18::Kind::NameKeyed => "source:generated-cff-name-keyed",
+        c18::Kind::Cid => "source:generated-cff-cid-keyed",
+        c18::Kind::Cff2 => "source:generated-cff2",
+    });
+    rec.class_if(n > 255, "source:generated-cff>255-glyphs");
+    rec.class_if(cc.cuts == 0 && cc.nfrags == 0, "source:generated-cff-without-subroutines");
+    check_subset_on("generated-cff", &otf, n, if cff2 { Outline::Cff2 } else { Outline::Cff }, sc, rec)
+}
+
 // ------------------------------------------------------------------------------ whole_font
 
 #[derive(Clone, Debug)]
@@ -1481,6 +1523,8 @@ impl Property for C09 {
         ctx.section("subset-fixtures", n, subset_strategy(), |c, rec| check_subset_fixture(c, rec));
         let n = ctx.cases(60_000, 800_000);
         ctx.section("subset-generated", n, (gen_font_strategy(), subset_strategy()), |c, rec| check_subset_generated(c, rec));
+        let n = ctx.cases(15_000, 600_000);
+        ctx.section("subset-generated-cff", n, (gen_cff_strategy(), subset_strategy()), |c, rec| check_subset_generated_cff(c, rec));
         let n = ctx.cases(24_000, 300_000);
         ctx.section("whole-font", n, whole_strategy(), |c, rec| check_whole(c, rec));
         let n = ctx.cases(24_000, 300_000);
